@@ -228,6 +228,14 @@ def check_case(c):
         rb = impl_expand(c['b'], c['config'])
         if rb != ra:
             return 'alias form gives %r, definition in its place (%r) gives %r' % (ra[1][:300], c['b'], str(rb[1] if rb[0] == 'ok' else rb)[:300]), ra, depth
+    if c['kind'].endswith('repeat-in-parent'):
+        # the repeater written on the alias is carried by every top-level node of the definition
+        t = au.impl_tree(c['a'], c['config'])
+        if t[0] == 'ok':
+            tops = [n for n in t[1] if n[0] == 1]
+            bad = [n[1] for n in tops if n[3] is None or n[3][0] != 2]
+            if bad or not tops:
+                return 'nodes %r that replace the alias in `ul>KEY*2` do not carry the alias repeater' % (bad[:4],), ra, depth
     return None, ra, depth
 
 
